@@ -4,3 +4,5 @@ import Drv.Corr
 import Drv.C10
 import Drv.C16
 import Drv.C06
+import Drv.C07
+import Drv.C09
